@@ -68,6 +68,10 @@ _NOTE = ("Trusted: rustc MIR -> Kani goto translation, CBMC memory model, CaDiCa
          "property logic; stubs: zeroize::optimization_barrier / volatile_set -> no-op where secrets are dropped. Bounded: "
          "sizes per harness are in the evidence; everything outside them is outside the claim.")
 
+_NOTE_BT = (_NOTE + " The harnesses on the shipped out_of_order ratchet additionally trust the associative-array model that replaces "
+            "alloc::collections::BTreeMap through kani::stub (kani/src/models/btmap.rs: finite-map contract over 4 slots, checked by its own "
+            "sanity harnesses; counterexamples are replayed natively against the REAL container).")
+
 # ------------------------------------------------------------------------------------------- C20
 OUTSIDE["C20"] = ("leaf counts that are not powers of two (never produced: total_leaf_count rounds up and is "
                   "itself checked); trees above 2^25 leaves (library cap is 2^24); direct_copath / BFS beyond "
@@ -482,7 +486,7 @@ CLAIMS["C13"] = dict(text="Dataflow equality with the RFC 9420 formulas, decided
 CLAIMS["C05"] = dict(text="Reuse-guard XOR for all nonces/guards; per-generation key/nonce/next-secret derivations distinct and RFC-shaped for every generation; "
                           "handshake vs application separation; ratchet request logic for all u32 generation pairs in the build without out_of_order AND in the "
                           "shipped out_of_order build (skipped keys parked, handed out exactly once, replay refused; <= 2 parked keys; the B-tree container "
-                          "replaced by an associative-array model through kani::stub).", note=_NOTE)
+                          "replaced by an associative-array model through kani::stub).", note=_NOTE_BT)
 CLAIMS["C03"] = dict(text="Kernels only: admission gate (version / group id / epoch / encryption) for all inputs; AAD layouts bind every clear field; "
                           "zero-padding check; padded sizes; sender-data sample. Not a claim about forgery resistance end to end.", note=_NOTE)
 CLAIMS["C16"] = dict(text="Bounded model checking of the observer's admission gate for EVERY (epoch, jitter, message epoch, version, group id byte, content "
@@ -491,7 +495,7 @@ CLAIMS["C16"] = dict(text="Bounded model checking of the observer's admission ga
 CLAIMS["C11"] = dict(text="One clause: a handshake message (proposal or commit, public or private) is admitted only for the current epoch - decided for all "
                           "epochs/versions/group ids. The pending-commit state machine is outside.", note=_NOTE)
 CLAIMS["C04"] = dict(text="One clause: failed key lookups (past generation / beyond the window / key already used) leave the ratchet - secret, generation and, in "
-                          "the shipped out_of_order build, the history of parked keys - unchanged; all u32 generation pairs, <= 2 parked keys.", note=_NOTE)
+                          "the shipped out_of_order build, the history of parked keys - unchanged; all u32 generation pairs, <= 2 parked keys.", note=_NOTE_BT)
 
 
 NOT_APPLICABLE.update({
